@@ -217,7 +217,48 @@ def run(tier, seed, rng):
         if got != want or o.get('end') != len(raw):
             failures.append(dict(kind='oracle', sig='fresh-selector', what=f"a selector building a fresh packet per call: elements must parse as {want} and the parse must end at {len(raw)}; observed {got}, end {o.get('end')}",
                                  classes=fsrc, cls=cls, raw=raw.hex(), offset=0, observed=o))
-    out = dict(seq=0, counted=0, until=0, when_false=0, opt=0, selected=0, ref=0, unevaluable=0, parsed=0, positions=0, positions_not_covered=0, bad=[], fresh_selector_cases=len(fcases))
+    # ---- self-referential declarations: a repeated field whose elements are packets of the class that declares it (a tree): parsing
+    # an element re-enters the same field object; counted and until forms; every tree shape up to 7 nodes in breadth-first encoding
+    tsrc = ("class TNode(Packet):\n    n = Int(1)\n    v = Int(1)\n    kids = Ref(lambda **k: TNode(), default=0).repeated(count=n)\n"
+            "class TNodeL(Packet):\n    __bisturi__ = {'generate_for_pack': False, 'generate_for_unpack': False}\n    n = Int(1)\n    v = Int(1)\n"
+            "    kids = Ref(lambda **k: TNodeL(), default=0).repeated(count=n)\n"
+            "class UNode(Packet):\n    last = Int(1)\n    v = Int(1)\n    kids = Ref(lambda **k: UNode(), default=0).repeated(until=lambda pkt, **k: pkt.kids[-1].last == 1, when=v)\n"
+            "class TTop(Packet):\n    h = Int(1)\n    root = Ref(TNode)\n    t = Int(1)\n")
+    def enc(tree):           # tree = (value, [children])
+        return bytes([len(tree[1]), tree[0]]) + b''.join(enc(c) for c in tree[1])
+    def shape(tree):
+        return [tree[0], [shape(c) for c in tree[1]]]
+    def parsed_shape(o):
+        f = dict(o['f'])
+        return [f['v'], [parsed_shape(k) for k in f['kids']]]
+    trees = [(1, []), (1, [(2, [])]), (1, [(2, []), (3, [])]), (1, [(2, [(4, [])]), (3, [])]), (1, [(2, []), (3, [(5, []), (6, [])])]),
+             (1, [(2, [(4, [(7, [])])])]), (1, [(2, [(4, []), (5, [])]), (3, [(6, [])])]), (9, [(8, []), (7, []), (6, [(5, [(4, [])])])])]
+    tcases, tmeta = [], []
+    for tr in trees:
+        raw = enc(tr)
+        for cls in ('TNode', 'TNodeL'):
+            tcases.append(dict(cls=cls, op='roundtrip', raw=(raw + b'\x55').hex(), offset=0)); tmeta.append((cls, raw + b'\x55', shape(tr), len(raw)))
+        tcases.append(dict(cls='TTop', op='roundtrip', raw=(b'\x07' + raw + b'\x09').hex(), offset=0)); tmeta.append(('TTop', b'\x07' + raw + b'\x09', shape(tr), len(raw) + 2))
+    # until form: every node with v != 0 has children, the last child of each list has last == 1
+    def uenc(v, kids, last):
+        return bytes([1 if last else 0, v]) + b''.join(uenc(kv, kk, i == len(kids) - 1) for i, (kv, kk) in enumerate(kids))
+    utrees = [(0, []), (1, [(0, [])]), (2, [(0, []), (0, [])]), (3, [(4, [(0, [])]), (0, [])]), (5, [(0, []), (6, [(0, []), (0, [])])])]
+    for uv, uk in utrees:
+        raw = uenc(uv, uk, True)
+        tcases.append(dict(cls='UNode', op='roundtrip', raw=(raw + b'\x55').hex(), offset=0)); tmeta.append(('UNode', raw + b'\x55', shape((uv, uk)), len(raw)))
+    tres = run_impl(os.path.join(VERIF, 'harness', 'impl_pkt.py'), dict(header=decl.HEADER_PY, blocks=[dict(name='trees', src=tsrc)], modname='c08t', cases=tcases))
+    for (cls, raw, want, end), o in zip(tmeta, tres['outcomes']):
+        got = None
+        if 'ok' in o:
+            node = dict(o['ok']['f'])['root'] if cls == 'TTop' else o['ok']
+            try:
+                got = parsed_shape(node)
+            except Exception as e:
+                got = 'unreadable: ' + type(e).__name__
+        if got != want or o.get('end') != end:
+            failures.append(dict(kind='oracle', sig='recursive-sequence', what=f"a repeated field whose elements are packets of its own class: the tree must parse as {want} and end at {end}; observed {got}, end {o.get('end')}",
+                                 classes=tsrc, cls=cls, raw=raw.hex(), offset=0, observed=o))
+    out = dict(seq=0, counted=0, until=0, when_false=0, opt=0, selected=0, ref=0, unevaluable=0, parsed=0, positions=0, positions_not_covered=0, bad=[], fresh_selector_cases=len(fcases), recursive_tree_cases=len(tcases))
     for r in records:
         if r['kind'] != 'roundtrip' or 'ok' not in r['outcome']:
             continue
